@@ -62,6 +62,8 @@ def gen_plan_c07(seed, index, tier="quick"):
             offsets = None
             if r.random() < 0.4:
                 offsets = {str(p): next(serial) * 10 for p in r.sample(range(nparts), r.randint(1, nparts))}
+                if r.random() < 0.2:
+                    tasks = []  # a consume-transform-produce round whose output was filtered out
             txns.append({"tasks": tasks, "offsets": offsets,
                          "offsets_first": r.random() < 0.3,
                          "end": "commit" if r.random() < 0.7 else "abort",
